@@ -37,9 +37,11 @@ def dispatch (line : String) : String :=
   | "c03" :: rest => Drive.Conn.handle "c03" rest
   | "c18" :: rest => Drive.Conn.handle "c18" rest
   | "c02" :: rest => Drive.Conn.handle "c02" rest
+  | "c02s" :: rest => Drive.C05.handle rest
   | "c05c" :: rest => Drive.Conn.handle "c05c" rest
   | "c04" :: rest => Drive.Sim.handle "c04" rest
   | "c01w" :: rest => Drive.Sim.handle "c04" rest
+  | "c12w" :: rest => Drive.Sim.handle "c04" rest
   | "c20" :: rest => Drive.Sim.handle "c20" rest
   | "c09" :: rest => Drive.Sim.handle "c09" rest
   | "c13" :: rest => Drive.Sim.handle "c13" rest
